@@ -13,21 +13,25 @@ from ..cfg import CFG, ENTRY, own_exprs, walk_own
 from ..core import PKG, Report
 from ..jinja_interp import expr_text
 from .siblings import Path as SimPath
-from .siblings import PathSim
+from .siblings import PathSim, error_locals, path_returns_error
 
 LEVEL = ("sibling / guard rules: (1) every get_type_string implementation evaluates an Unset-mentioning constant exactly when `not "
          "no_optional and not required` (path simulation over the boolean atoms, all overrides); to_string emits a default iff the "
          "truth table says so; (2) every transform/construct macro of every property template handles Unset exactly on the "
          "non-required arm, and a guard may be skipped only under `property.required` (truth tables over the Jinja guard atoms, macro "
-         "calls followed into the macro's body, also into constant-named imported templates; constants, comparisons of truth values, "
+         "calls and call blocks - `caller()` is the block's body - followed into the macro's body, also into constant-named imported "
+         "templates, `set` blocks read as the text they hold; constants, comparisons of truth values, "
          "loops over literal sequences and selectattr/rejectattr chains are read as the decisions they are); (3) model I/O: "
          "unconditional key writes imply `required`, optional pops carry the UNSET default (loop filters count as guards); (4) null: "
          "union parser, handle_nullable adds null on every path of every schema shape, enum builder facts; (5) query filter tests "
          "identity with UNSET/None, cookie and header writes outside the block of an UNSET test imply `required`, optional path "
          "parameters rejected on every path; (6) mandatory attributes are declared before defaulted ones (passes in execution order); "
          "(7) required/default are never changed in place; (8) every function that hands on the requiredness of the declaration it was "
-         "given does so on every path to a successful return (statement CFG; keyword, position, keyword dictionary, alias local, or "
-         "the declaration itself handed to a forwarder); (9) decode direction: the Python code each kind's construct macro generates "
+         "given does so on every path to a successful return (path simulation; a return is an error return by what the returned local "
+         "holds on that path: error constructor, or the arm of an isinstance test for an error class - also one that binds it; keyword, "
+         "position, keyword dictionary, alias local, or the declaration itself handed to a forwarder); (10) merge_properties, private "
+         "helpers written out in place and loops over constant tables unrolled: every path to a result hands both declarations to the "
+         "one function that ORs their `required`, or returns under equality of the two; (9) decode direction: the Python code each kind's construct macro generates "
          "for a non-required property (per valuation of the template conditions, macro calls followed, placeholders for destination / "
          "source / unknown) is parsed and run abstractly on the path where the source is UNSET: the destination ends as the source / "
          "UNSET, never as a fresh value.")
@@ -340,22 +344,29 @@ def run(rep: Report, ctx: Any) -> str:
         if not fw.sources(f):
             continue
         n_fw += 1
-        cfg_ = CFG(f.node)
-        errs = error_names(f.node)
-        bad_returns = []
-        for r in cfg_.stmts():
+        # path by path (PathSim explores every decision both ways): a path that ends in `return <value>` either returns an error -
+        # what it returns constructs one, or is a local that on THIS path holds one (bound to an error constructor, or narrowed by the
+        # arm of an isinstance(<local>, <error class>) test the path took) - or has handed the requiredness on before / in the return
+        errs = error_locals(f.node)
+        bad_returns: list[ast.Return] = []
+        for p in PathSim(f.node).paths():
+            r = p.end
             if not isinstance(r, ast.Return) or r.value is None or (isinstance(r.value, ast.Constant) and r.value.value is None):
                 continue
-            if returns_error(r, errs) or fw.in_stmt(f, r):
+            if any((fw.in_stmt(f, ev.node) if ev.kind == "stmt" else bool(fw.in_expr(f, ev.node))) for ev in p.events):
                 continue
-            if not cfg_.every_path_passes(ENTRY, r, lambda n_: isinstance(n_, ast.stmt) and fw.in_stmt(f, n_)):
-                bad_returns.append(r)
+            if path_returns_error(p, errs) or any(r is x for x in bad_returns):
+                continue
+            bad_returns.append(r)
         rep.check(not bad_returns, "R10.8", f"{short(f)}::requiredness-forwarded",
                   f"a path returns `{norm(bad_returns[0].value)[:60] if bad_returns else ''}` without having passed on the requiredness of the "
                   f"declaration ({', '.join(sorted(fw.sources(f)))}): the result carries whatever requiredness it was made with elsewhere",
                   where(f, bad_returns[0] if bad_returns else f.node), lhs=[f"line {r.lineno}: {norm(r)[:70]}" for r in bad_returns][:3],
                   rhs="required=<the declaration's> on every path to a successful return")
     rep.floor("requiredness_forwarders", n_fw, 10)
+
+    # ---- R10.10 requiredness survives a merge ------------------------------------------------------------------------------------
+    _merge_keeps_required(rep, ix)
 
     # ---- R10.9 the UNSET source passes through the decoder ------------------------------------------------------------------------
     # from_dict pops an optional key with the UNSET default (R10.3) and hands `<python_name>` to cls(...).  What lies between is the
@@ -554,6 +565,80 @@ def run(rep: Report, ctx: Any) -> str:
     rep.not_decided.append("run-time values of attributes; nullable without type or composition falls through handle_nullable (observation)")
     rep.observe("Schema.handle_nullable: `nullable: true` on a schema without type/oneOf/anyOf/allOf is ignored")
     return LEVEL
+
+
+def _merge_keeps_required(rep: Report, ix: Any) -> None:
+    """allOf merges two declarations of one property into one (merge_properties); the merged declaration is required when either
+    was.  The OR is taken in one place - the function that receives both declarations and builds the result with
+    `required=<a>.required or <b>.required` - so every way out of merge_properties that is not an error must go through it with
+    BOTH declarations; returning one of them as it stands is right only when the two are equal."""
+    from .siblings import _Inliner, implied_atoms
+
+    rep.rule("R10.10", "merging two declarations keeps `required` if either has it: every path of merge_properties (private helpers "
+                       "written out in place) that returns a result hands BOTH declarations (or copies made of them) to one call - the "
+                       "combining function, which builds the result with `required=<one>.required or <other>.required` - or returns "
+                       "under `<first> == <second>`; a shortcut that returns one declaration as it stands drops the other's `required`")
+    f = ix.func("merge_properties.merge_properties")
+    ps = [p.arg for p in f.params]
+    rep.require(len(ps) == 2, "the two declarations merged by merge_properties")
+    fn = _Inliner(ix, f, depth=3).run()
+    errs = error_locals(fn)
+    sim = PathSim(fn)
+    side = {ps[0]: 1, ps[1]: 2}
+
+    def base_side(e: ast.expr, st: dict, depth: int = 0) -> "int | None":
+        """1 / 2: the expression is the first / second declaration, or a copy made of it"""
+        e = sim.resolve(e, st)
+        if isinstance(e, ast.Name):
+            return side.get(e.id)
+        if isinstance(e, ast.Call) and e.args and depth < 3 and call_name(e).rsplit(".", 1)[-1] in ("evolve", "replace", "copy", "deepcopy"):
+            return base_side(e.args[0], st, depth + 1)
+        return None
+
+    def equal_taken(p: SimPath) -> bool:
+        for ev in p.events:
+            if ev.kind != "test" or ev.taken is None or not isinstance(ev.node, ast.expr):
+                continue
+            for t, val in implied_atoms(ev.node, ev.taken):
+                if isinstance(t, ast.Compare) and len(t.ops) == 1 and isinstance(t.ops[0], (ast.Eq, ast.NotEq)) and \
+                        {base_side(t.left, ev.state), base_side(t.comparators[0], ev.state)} == {1, 2} and val == isinstance(t.ops[0], ast.Eq):
+                    return True
+        return False
+
+    combiners: set[str] = set()
+    bad: list[ast.Return] = []
+    good: set[tuple[int, str]] = set()
+    for p in sim.paths():
+        r = p.end
+        if not isinstance(r, ast.Return) or r.value is None or path_returns_error(p, errs):
+            continue
+        v = sim.resolve(r.value, p.end_state)
+        if isinstance(v, ast.Constant) and v.value is None:
+            continue
+        if isinstance(v, ast.Call) and {1, 2} <= {base_side(a, p.end_state) for a in [*v.args, *[k.value for k in v.keywords]]}:
+            combiners.add(call_name(v).rsplit(".", 1)[-1])
+            good.add((r.lineno, norm(r)))
+            continue
+        if equal_taken(p):
+            good.add((r.lineno, norm(r)))
+            continue
+        if not any(x.lineno == r.lineno and norm(x) == norm(r) for x in bad):
+            bad.append(r)
+    rep.check(not bad, "R10.10", f"{short(f)}::both-declarations-combined",
+              f"a path returns `{norm(bad[0].value)[:60] if bad else ''}` without handing both declarations to the combining function: a "
+              "`required` that only the other declaration carries is lost (the property is generated as optional)",
+              where(f, bad[0] if bad else f.node), lhs=[f"line {r.lineno}: {norm(r)[:70]}" for r in bad][:3],
+              rhs="<combine>(<first>, <second>) on every path to a result, or `first == second`")
+    rep.floor("merge_result_returns", len(good), 4)
+    found = [g for g in ix.all_functions if g.module is f.module and g.name in combiners]
+    rep.require(found or bad, "the function merge_properties hands both declarations to")
+    for g in found:
+        ors = [kw.value for c in ast.walk(g.node) if isinstance(c, ast.Call) for kw in c.keywords if kw.arg == "required"]
+        ok = any(isinstance(v, ast.BoolOp) and isinstance(v.op, ast.Or) and
+                 len({norm(x.value) for x in v.values if isinstance(x, ast.Attribute) and x.attr == "required"}) >= 2 for v in ors)
+        rep.check(ok, "R10.10", f"{short(g)}::required-or", "the function that combines two declarations does not build the result with "
+                  "`required=<one>.required or <other>.required`", where(g, g.node), lhs=[norm(v)[:60] for v in ors][:2],
+                  rhs="required=a.required or b.required")
 
 
 def _py_blocks(text: str) -> Iterator[ast.Module]:
@@ -911,6 +996,7 @@ class _TplEval:
 
 
 UNROLL = 8
+CALLER = "\0caller"   # key of a macro's bindings under which the body of the call block that invoked it is kept (no template name can collide)
 
 
 def _frags(body: list[nodes.Node], ti: Any, jx: Any = None, tests: "list[nodes.Node] | None" = None, sets: bool = False) -> Iterator[tplq.Frag]:
@@ -977,6 +1063,33 @@ class _Walk:
             return t2.macros[mn], c, t2
         return None
 
+    @staticmethod
+    def bind_call(macro: nodes.Macro, call: nodes.Call, b: dict[str, Any]) -> dict[str, Any]:
+        """the macro's parameters as the expressions the call hands over (in the caller's terms), defaults for the rest"""
+        b2: dict[str, Any] = {}
+        params = [a.name for a in macro.args]
+        for a, d in zip(macro.args[len(macro.args) - len(macro.defaults):], macro.defaults):
+            b2[a.name] = d
+        for i, a in enumerate(call.args):
+            if i < len(params):
+                b2[params[i]] = _clone(a, b) if b else a
+        for kw in call.kwargs:
+            b2[kw.key] = _clone(kw.value, b) if b else kw.value
+        return b2
+
+    @staticmethod
+    def caller_body(c: nodes.Node, b: dict[str, Any]) -> "tuple[list, Any, dict[str, Any]] | None":
+        """the output expression is `caller()` of a macro that was invoked by a call block: (the block's body, its template, the
+        bindings at the place where it is written)"""
+        while isinstance(c, nodes.Filter) and c.node is not None:
+            c = c.node
+        if isinstance(c, nodes.Call) and isinstance(c.node, nodes.Name) and c.node.name == "caller" and "caller" not in b and CALLER in b:
+            body, ti, b0, params = b[CALLER]
+            if params:
+                b0 = {**b0, **{p: (_clone(a, b) if b else a) for p, a in zip(params, c.args)}}
+            return body, ti, b0
+        return None
+
     # -- the walk -----------------------------------------------------------------------------------------------------------------
     def cond(self, t: nodes.Node, b: dict[str, Any]) -> nodes.Node:
         t2 = _clone(t, b) if b else t
@@ -992,19 +1105,15 @@ class _Walk:
                     if isinstance(c, nodes.TemplateData):
                         yield _frag("data", c.data, c.lineno, guards, gnodes, loops, c, insts=insts)
                         continue
+                    cb = self.caller_body(c, b)
+                    if cb is not None and len(stack) < 6:
+                        yield from self.walk(cb[0], cb[1], guards, gnodes, loops, insts, cb[2], stack + (("caller", str(id(cb[0]))),))
+                        continue
                     mc = self.macro_of(c, ti, b)
                     if mc is not None and (mc[2].name, mc[0].name) not in stack and len(stack) < 4:
                         macro, call, t2 = mc
-                        b2: dict[str, Any] = {}
-                        params = [a.name for a in macro.args]
-                        for a, d in zip(macro.args[len(macro.args) - len(macro.defaults):], macro.defaults):
-                            b2[a.name] = d
-                        for i, a in enumerate(call.args):
-                            if i < len(params):
-                                b2[params[i]] = _clone(a, b) if b else a
-                        for kw in call.kwargs:
-                            b2[kw.key] = _clone(kw.value, b) if b else kw.value
-                        yield from self.walk(macro.body, t2, guards, gnodes, loops, insts, b2, stack + ((t2.name, macro.name),))
+                        yield from self.walk(macro.body, t2, guards, gnodes, loops, insts, self.bind_call(macro, call, b),
+                                             stack + ((t2.name, macro.name),))
                         continue
                     c2 = _clone(c, b) if b else c
                     yield _frag("expr", expr_text(c2), c.lineno, guards, gnodes, loops, c, expr=c2, insts=insts)
@@ -1033,7 +1142,25 @@ class _Walk:
                 t2 = self.jx.templates.get(n.template.value) if self.jx is not None and isinstance(n.template, nodes.Const) else None
                 if t2 is not None and ("include", t2.name) not in stack and len(stack) < 4:
                     yield from self.walk(t2.tree.body, t2, guards, gnodes, loops, insts, b, stack + (("include", t2.name),))
-            elif isinstance(n, (nodes.With, nodes.Scope, nodes.CallBlock, nodes.FilterBlock, nodes.AssignBlock)):
+            elif isinstance(n, nodes.CallBlock):
+                # `{% call m(args) %}body{% endcall %}` is a call of m in which `caller()` stands for the body (in the terms of
+                # the place where the block is written)
+                mc = self.macro_of(n.call, ti, b)
+                if mc is not None and (mc[2].name, mc[0].name) not in stack and len(stack) < 4:
+                    macro, call, t2 = mc
+                    b2 = self.bind_call(macro, call, b)
+                    b2[CALLER] = (n.body, ti, b, [a.name for a in n.args if isinstance(a, nodes.Name)])
+                    yield from self.walk(macro.body, t2, guards, gnodes, loops, insts, b2, stack + ((t2.name, macro.name),))
+                else:
+                    yield from self.walk(n.body, ti, guards, gnodes, loops, insts, b, stack)
+            elif isinstance(n, nodes.AssignBlock) and self.sets and isinstance(n.target, nodes.Name) and \
+                    all(isinstance(x, nodes.Output) for x in n.body):
+                # `{% set x %}text {{ e }}{% endset %}` defines x as the concatenation of its pieces: nothing is emitted here
+                parts = [nodes.Const(c.data, lineno=c.lineno) if isinstance(c, nodes.TemplateData) else (_clone(c, b) if b else c)
+                         for x in n.body for c in x.nodes]
+                v2 = nodes.Concat(parts, lineno=n.lineno)
+                yield _frag("set", expr_text(v2), n.lineno, guards, gnodes, loops, n, expr=v2, target=n.target.name, insts=insts)
+            elif isinstance(n, (nodes.With, nodes.Scope, nodes.FilterBlock, nodes.AssignBlock)):
                 yield from self.walk(getattr(n, "body", []), ti, guards, gnodes, loops, insts, b, stack)
             elif isinstance(n, nodes.Macro):
                 continue
@@ -1147,6 +1274,31 @@ def _gen_text(fr: tplq.Frag, at: int, env: dict[str, bool], tev: "_TplEval", rol
         return UNKNOWN
 
     return rec(fr.expr, at, 0)   # type: ignore[attr-defined]
+
+
+def generated_variants(m: Any, ti: Any, jx: Any, role: Any, fixed: "dict[str, bool] | None" = None,
+                       limit: int = 12) -> "list[tuple[dict[str, bool], str]] | None":
+    """the code a macro generates, once per valuation of the template conditions it depends on (guards around its pieces, tests of
+    conditional expressions, guards of the `set` definitions it reads): [(valuation, text)].  Macro calls and call blocks are
+    followed, `set` variables read as their definitions, `role(expression, its text, position, definitions)` names the
+    placeholders of the expressions the caller knows, everything else that is not text reads UNKNOWN.  None: more than `limit`
+    conditions."""
+    frs = list(enumerate(_frags(m.body, ti, jx, sets=True)))
+    tev = _TplEval([fr for _, fr in frs])
+    names: list[str] = []
+    for i, fr in frs:
+        for a in _guard_atoms(fr) + (tev.atoms(fr.expr, i) if fr.kind == "expr" else []):
+            if a not in names:
+                names.append(a)
+    fixed = dict(fixed or {})
+    free = [a for a in names if a not in fixed]
+    if len(free) > limit:
+        return None
+    out = []
+    for env0 in tplq.assignments(free):
+        env = {**env0, **fixed}
+        out.append((env, "".join(_gen_text(fr, i, env, tev, role) for i, fr in frs if fr.kind != "set" and _guard_holds(fr, env))))
+    return out
 
 
 class _GenRun:
